@@ -14,6 +14,12 @@ import (
 
 // AwaitConnect waits until a pair is selected.
 func (a *Agent) AwaitConnect(ctx context.Context) error {
+	// A closed agent reports closure even if it had connected before: the select below
+	// picks any ready branch.
+	if err := a.loop.Err(); err != nil {
+		return err
+	}
+
 	select {
 	case <-a.loop.Done():
 		return a.loop.Err()
